@@ -67,8 +67,11 @@ func write3MF(wg *sync.WaitGroup, path string) (chan<- []*sdf.Triangle3, error) 
 	go func() {
 		defer wg.Done()
 		defer f.Close()
+		verifEv("wr.start", 1, 0, 0)
+		defer verifEv("wr.exit", 1, 0, 0)
 		// read triangles from the channel and add them to the model
 		for ts := range c {
+			verifEv("wr.recv", 1, len(ts), len(mesh.Triangles.Triangle))
 			for _, t := range ts {
 				v1 := mb.AddVertex(toPoint3D(t[0]))
 				v2 := mb.AddVertex(toPoint3D(t[1]))
@@ -77,6 +80,7 @@ func write3MF(wg *sync.WaitGroup, path string) (chan<- []*sdf.Triangle3, error) 
 			}
 		}
 		// encode and write out the file
+		verifEv("wr.eof", 1, len(mesh.Triangles.Triangle), 0)
 		if err := f.Encode(&model); err != nil {
 			fmt.Printf("%s\n", err)
 			return
